@@ -157,6 +157,76 @@ Adopt == /\ fresh /\ Len(backs) = 1
          /\ SameValue(backs[1], cur) = TRUE
          /\ UNCHANGED ovars
 
+\* ---- read-only calls ------------------------------------------------------------
+\* Every public method of a value type that is NOT a mutator: the type code, sizes and
+\* membership tests, the getters, the key enumeration, the textual form, Write / WriteValue of
+\* the node into a fresh output, and Equals / CompareTo against another value.  A read-only
+\* call returns what the content of that moment defines (where the value model defines it)
+\* and leaves the content -- including the ORDER of map entries and list items -- as it was:
+\* the object is "a value ... when written" after the call exactly as before it.
+\*   o.op   arguments                       result o.r
+\*   GetValueType                           type code
+\*   Size / IsEmpty                         number of items / entries; is it 0
+\*   ContainsKey k                          BOOLEAN
+\*   Get i | k                              [nil |-> TRUE] or [v |-> the child]
+\*   GetString / GetBool / GetLong / GetFloat i | k   the payload of the child if it is a text /
+\*                                          boolean / decimal / float, else "" / FALSE / 0 / 0.0
+\*   Keys                                   the keys in entry order
+\*   Write / WriteValue                     the bytes: body / tagged value of the node
+\*   GetCount, Sum, Min, Max                (summaries, in their own number type) the field
+\*   ToString / String / Avg ...            (not defined by the value model: not compared)
+\*   Equals / CompareTo  with               with = "self" | "node" (path2: another node of the
+\*                                          same object) | "value" (arg: the argument before the
+\*                                          call, after: the argument as its getters show it
+\*                                          after the call -- a comparison changes neither side)
+LookOps == {"GetValueType", "Size", "IsEmpty", "ContainsKey", "Get", "GetString", "GetBool", "GetLong", "GetFloat", "Keys",
+            "Write", "WriteValue", "GetCount", "Sum", "Min", "Max", "Other", "Equals", "CompareTo"}
+
+\* position of the child the call's argument selects (0: none)
+LookPos(x, o) == IF x.t = TList THEN (IF Has_(o, "i") /\ o.i \in 1..Len(x.v) THEN o.i ELSE 0)
+                 ELSE IF Has_(o, "k") THEN KeyPos(x.v, o.k) ELSE 0
+
+ChildIs(x, o, t) == LookPos(x, o) > 0 /\ ChildAt(x, LookPos(x, o)).t = t
+ChildPay(x, o) == ChildAt(x, LookPos(x, o)).v
+
+LookSees(x, o, root) ==
+  /\ Has_(o, "op") /\ o.op \in LookOps
+  /\ LET isMap == x.t \in {TMap, TIntMap}
+         cont  == x.t \in ContainerCodes
+         keyed == (x.t = TList /\ Has_(o, "i") /\ o.i \in 1..Len(x.v)) \/ (isMap /\ Has_(o, "k") /\ KeyFits(x, o.k))
+     IN CASE o.op = "GetValueType" -> Has_(o, "r") /\ o.r = x.t
+          [] o.op = "Size"         -> cont /\ Has_(o, "r") /\ o.r = Len(x.v)
+          [] o.op = "IsEmpty"      -> x.t = TMap /\ Has_(o, "r") /\ o.r = (Len(x.v) = 0)
+          [] o.op = "ContainsKey"  -> x.t = TMap /\ keyed /\ Has_(o, "r") /\ o.r = (LookPos(x, o) > 0)
+          [] o.op = "Get"          -> cont /\ keyed /\ Has_(o, "r")
+                                      /\ IF LookPos(x, o) = 0 THEN o.r = [nil |-> TRUE]
+                                         ELSE Has_(o.r, "v") /\ SameValue(o.r.v, ChildAt(x, LookPos(x, o)))
+          [] o.op = "GetString"    -> cont /\ keyed /\ Has_(o, "r") /\ o.r = (IF ChildIs(x, o, TText) THEN ChildPay(x, o) ELSE <<>>)
+          [] o.op = "GetBool"      -> cont /\ keyed /\ Has_(o, "r") /\ o.r = (IF ChildIs(x, o, TBool) THEN ChildPay(x, o) ELSE FALSE)
+          [] o.op = "GetLong"      -> x.t = TMap /\ keyed /\ Has_(o, "r") /\ o.r = (IF ChildIs(x, o, TDecimal) THEN ChildPay(x, o) ELSE Fill(8, 0))
+          [] o.op = "GetFloat"     -> x.t = TMap /\ keyed /\ Has_(o, "r") /\ o.r = (IF ChildIs(x, o, TFloat) THEN ChildPay(x, o) ELSE Fill(4, 0))
+          [] o.op = "Keys"         -> isMap /\ Has_(o, "r") /\ o.r = [j \in 1..Len(x.v) |-> x.v[j][1]]
+          [] o.op = "Write"        -> Has_(o, "r") /\ o.r = EncBody(x)
+          [] o.op = "WriteValue"   -> Has_(o, "r") /\ o.r = EncValue(x)
+          [] o.op = "GetCount"     -> x.t \in {TDoubleSummary, TLongSummary} /\ Has_(o, "r") /\ o.r = x.v.count
+          [] o.op = "Sum"          -> x.t \in {TDoubleSummary, TLongSummary} /\ Has_(o, "r") /\ o.r = x.v.sum
+          [] o.op = "Min"          -> x.t \in {TDoubleSummary, TLongSummary} /\ Has_(o, "r") /\ o.r = x.v.min
+          [] o.op = "Max"          -> x.t \in {TDoubleSummary, TLongSummary} /\ Has_(o, "r") /\ o.r = x.v.max
+          [] o.op = "Other"        -> Has_(o, "name")
+          [] o.op \in {"Equals", "CompareTo"} ->
+                /\ Has_(o, "r") /\ Has_(o, "with")
+                /\ IF o.op = "Equals" THEN o.r \in BOOLEAN ELSE o.r \in {-1, 0, 1}
+                /\ CASE o.with = "self"  -> TRUE
+                     [] o.with = "node"  -> Has_(o, "path2") /\ PathOK(root, o.path2, 1)
+                     [] o.with = "value" -> Has_(o, "arg") /\ Has_(o, "after") /\ IsValue(o.arg) /\ SameValue(o.after, o.arg)
+                     [] OTHER -> FALSE
+
+\* one public read-only method is called on the node at path: identity on the content
+Look(path, o) == /\ cur # <<>>
+                 /\ PathOK(cur, path, 1) = TRUE
+                 /\ LookSees(NodeAt(cur, path, 1), o, cur) = TRUE
+                 /\ UNCHANGED ovars
+
 \* ---- properties ---------------------------------------------------------------
 \* what was written last is the reference encoding of the content of that moment, it was
 \* read back as that content, consumed exactly and re-encoded to the same bytes
